@@ -184,7 +184,7 @@ def witnessSys : Sys :=
     the clause — yet `reset` (not forced), with the switches of the source before the repair, reports ResetComplete and
     deletes the branch and declines its pull request. -/
 theorem C15_refuses_counterexample :
-    let pr : PrInfo := ⟨1, "feature/TEST-0001", .dev 4 (some 3)⟩
+    let pr : PrInfo := ⟨1, "feature/TEST-0001", .dev 4 (some 3), false⟩
     let ever : List Commit := [0, 1, 3, 4]
     let w : Ref := .w (.dev 5 (some 1)) "feature/TEST-0001"
     let r := reset witnessSys witnessGraph preFixFlags
@@ -420,7 +420,7 @@ def exPrs : List HostPr :=
     old source commit 3 is recognised as a previous version, 5 is not); `reset` refuses, `force_reset`
     deletes w/5.1/feature/x only and declines pull request 2 only; the next evaluation rebuilds the branch. -/
 example :
-    let pr : PrInfo := ⟨1, "feature/x", .dev 4 (some 3)⟩
+    let pr : PrInfo := ⟨1, "feature/x", .dev 4 (some 3), false⟩
     exGraph.wfb = true ∧ exGraph.le 5 5 = true ∧ exGraph.isRobot 5 = false ∧ exGraph.parents 5 = [4] ∧
     exGraph.isRobot 4 = true ∧ exGraph.le 4 2 = false ∧ exGraph.le 5 2 = false ∧
     (reset exSys exGraph genFlags exPrs pr false).plan.outcome = "LossyResetWarning" ∧
